@@ -86,6 +86,10 @@ def ops_for(spec, rng, others):
         d0 = dims_st[0]
         n0 = spec.dataset["variance_density"].shape[0]
         ops.append(("isel", lambda: spec.isel(**{d0: rng.randrange(n0)}), False))
+        # selections numpy returns as views: whatever is done to them later must not reach the source
+        ops.append(("isel_slice", lambda: spec.isel(**{d0: slice(0, max(1, n0 - 1))}), False))
+        ops.append(("getitem_slice", lambda: spec[(slice(0, max(1, n0 - 1)),) + (slice(None),) * (spec.ndims - 1)], False))
+        ops.append(("getitem_frequency_slice", lambda: spec[(slice(None),) * (spec.ndims - (2 if two_d else 1)) + (slice(1, None),) + ((slice(None),) if two_d else ())], False))
         ops.append(("getitem", lambda: spec[(rng.randrange(n0),) + (slice(None),) * (spec.ndims - 1)], False))
         if d0 in ("time", "latitude") and d0 in spec.dataset.coords:
             ops.append(("mean", lambda: spec.mean(d0), False))
@@ -111,6 +115,7 @@ def ops_for(spec, rng, others):
     # documented in-place operations
     ops.append(("fillna", lambda: spec.fillna(0.0), True))
     ops.append(("multiply_inplace", lambda: spec.multiply(np.full(shp, 1.5), inplace=True), True))
+    ops.append(("multiply_dim_inplace", lambda: spec.multiply(np.linspace(1, 2, len(f)), ["frequency"], inplace=True), True))
     return ops
 
 
@@ -175,6 +180,20 @@ def check_sequences(run, ncases):
                     res = None      # scribbled on: do not keep it
                 if res is not None and hasattr(res, "dataset") and len(pool) < 5 and not any(res is p for p in pool):
                     pool.append(res)
+                    if name in ("isel_slice", "getitem_slice", "getitem_frequency_slice", "isel", "getitem", "sel", "bandpass", "copy_shallow") and rng.random() < 0.6:
+                        # write into the selection in place: the source (and every other live object) stays as it is
+                        before2 = [snapshot(p) for p in pool]
+                        try:
+                            shp2 = res.shape()
+                            res.multiply(np.full(shp2, 3.0), inplace=True)
+                            run.count("inplace_on_selection")
+                        except Exception:
+                            run.count("op_raised_inplace_on_selection")
+                        after2 = [snapshot(p) for p in pool]
+                        for i, (b, a) in enumerate(zip(before2, after2)):
+                            if not same(b, a) and pool[i] is not res:
+                                run.violation("an in-place operation on a selection changed the spectrum it was selected from (or another live object)",
+                                              dict(selection=name, history=hist, layout=layout, object=i))
             if case < 3:
                 run.sample(dict(layout=layout, operations=hist))
 
